@@ -59,6 +59,12 @@ def scenarios(tier, seed=0):
     for name in allnames:
         for lead, trail in ([(400, 400)] if q else [(400, 0), (0, 400), (4000, 4000)]):
             yield {"kind": "extra", "name": name, "lead": lead, "trail": trail}
+        # irregular rows outside the window: leading rows dropped without re-indexing, a gap, a duplicate
+        var = [{"keep_labels_from": 150}, {"drop_lead_rows": [100, 103]}, {"dup_lead_row": 37}, {"drop_trail_rows": [20, 25]}]
+        for vi, v in enumerate(var):
+            if q and (allnames.index(name) + vi) % 4:
+                continue
+            yield {"kind": "extra", "name": name, "lead": 400, "trail": 400, "irregular": v}
     # extending the end date: built-in crops
     for name in (allnames[::3] if q else allnames):
         for ext in ([1, 365] if q else [1, 30, 365, 730]):
@@ -117,6 +123,7 @@ def run(scn):
         p = copy.deepcopy(spec)
         p["weather"]["lead"] = scn["lead"]
         p["weather"]["trail"] = scn["trail"]
+        p["weather"].update(scn.get("irregular") or {})
         tp, ap, _ = run_plain(p, timeout=240)
         res["evals"] = 1
         if ab or ap:
@@ -173,7 +180,7 @@ def describe(tier):
         "rule": "calendar-day crops (catalogue crops scaled x0.15" + ("" if tier == "quick" else "; Wheat/Maize/Potato at full length, every 5th day") + ") x configurations {rainfed, threshold, net"
                 + ("" if tier == "quick" else ", groundwater, bunds") + "} x EVERY" + (" third" if tier == "quick" else "") + " cut day t of both seasons x a different weather word from t onwards {storm, heat"
                 + ("" if tier == "quick" else ", cold, drought") + "}: rows with index < t of all three daily tables and summary rows of seasons harvested before t must be bitwise equal; all 37 crops with "
-                "400/4000 wildly different weather records before and/or after the window; all built-in crops with the end date extended by {1" + ("" if tier == "quick" else ",30") + ",365" + ("" if tier == "quick" else ",730") + "} days "
+                "400/4000 wildly different weather records before and/or after the window (also with leading rows dropped without re-indexing, a gap of missing days and a duplicated row outside the window); all built-in crops with the end date extended by {1" + ("" if tier == "quick" else ",30") + ",365" + ("" if tier == "quick" else ",730") + "} days "
                 "(completed seasons' in-season rows and summary rows unchanged).",
         "bound": "every cut day (quick: every 3rd) of a 2-season window; extra-row and extension menus complete",
         "exhaustive": True,
